@@ -119,6 +119,9 @@ fstring_string_single_line = _compile(
 fstring_string_multi_line = _compile(
     r'(?:\{\{|\}\}|\\N\{' + unicode_character_name + r'\}|\\[^N]|[^{}\\])+'
 )
+# In raw f-strings a backslash starts no escape sequence, so ``\N`` is just text.
+fstring_raw_string_single_line = _compile(r'(?:\{\{|\}\}|\\(?:\r\n?|\n)|\\[^\r\n]|[^{}\r\n\\])+')
+fstring_raw_string_multi_line = _compile(r'(?:\{\{|\}\}|\\[\s\S]|[^{}\\])+')
 fstring_format_spec_single_line = _compile(r'(?:\\(?:\r\n?|\n)|[^{}\r\n])+')
 fstring_format_spec_multi_line = _compile(r'[^{}]+')
 
@@ -253,8 +256,9 @@ class PythonToken(Token):
 
 
 class FStringNode:
-    def __init__(self, quote):
+    def __init__(self, quote, raw=False):
         self.quote = quote
+        self.raw = raw
         self.parentheses_count = 0
         self.previous_lines = ''
         self.last_string_start_pos: Any = None
@@ -309,9 +313,9 @@ def _find_fstring_string(endpats, fstring_stack, line, lnum, pos):
             regex = fstring_format_spec_single_line
     else:
         if allow_multiline:
-            regex = fstring_string_multi_line
+            regex = fstring_raw_string_multi_line if tos.raw else fstring_string_multi_line
         else:
-            regex = fstring_string_single_line
+            regex = fstring_raw_string_single_line if tos.raw else fstring_string_single_line
 
     match = regex.match(line, pos)
     if match is None:
@@ -593,7 +597,7 @@ def tokenize_lines(
                 else:                                       # ordinary string
                     yield PythonToken(STRING, token, spos, prefix)
             elif token in fstring_pattern_map:  # The start of an fstring.
-                fstring_stack.append(FStringNode(fstring_pattern_map[token]))
+                fstring_stack.append(FStringNode(fstring_pattern_map[token], raw='r' in token.lower()))
                 yield PythonToken(FSTRING_START, token, spos, prefix)
             elif initial == '\\' and line[start:] in ('\\\n', '\\\r\n', '\\\r'):  # continued stmt
                 additional_prefix += prefix + line[start:]
